@@ -50,8 +50,10 @@ Step ==
                       ELSE s3seg
         /\ s3idx' = IF reset THEN {} ELSE IF e.ev = "PutIndex" /\ e.ok THEN s3idx \cup {e.base} ELSE IF e.ev = "LoseIdx" THEN s3idx \ {e.base} ELSE s3idx
         /\ lost' = IF reset THEN {} ELSE IF e.ev = "LoseIdx" THEN lost \cup {e.base} ELSE lost
-        /\ storeNext' = IF reset THEN 0 ELSE IF e.ev = "UpdateOffsets" THEN e.new ELSE storeNext
-        /\ hwReg' = IF reset THEN FALSE ELSE IF e.ev = "UpdateOffsets" THEN (hwReg \/ e.new < e.prev) ELSE hwReg
+        \* the published end offset is observed at every store update and, at every grid, as the "latest" ListOffsets answer
+        /\ storeNext' = IF reset THEN 0 ELSE IF e.ev = "UpdateOffsets" THEN e.new ELSE IF e.ev = "Grid" /\ e.lo >= 0 THEN e.lo ELSE storeNext
+        /\ hwReg' = IF reset THEN FALSE ELSE IF e.ev = "UpdateOffsets" THEN (hwReg \/ e.new < e.prev)
+                     ELSE IF e.ev = "Grid" /\ e.lo >= 0 THEN (hwReg \/ e.lo < storeNext) ELSE hwReg
         /\ hwMax' = IF reset THEN 0 ELSE IF e.ev = "UpdateOffsets" /\ e.new > hwMax THEN e.new
                      ELSE IF MaxShown(e) > hwMax THEN MaxShown(e) ELSE hwMax   \* a high watermark reported to a consumer counts as shown
         /\ up' = IF reset THEN TRUE ELSE IF e.ev = "Crash" THEN FALSE ELSE IF e.ev = "Restart" THEN e.ok ELSE up
